@@ -1,20 +1,101 @@
-import GateryModel.C14.Model
+import GateryModel.C14.Verdicts
 /-!
-# C14 — property theorems (under construction: soundness of `parse false` follows in C14/Sound.lean)
+# C14 — property theorems
+
+*Whenever the library's analysis of two Boolean conditions built from AND, NOT, constants and pass-through signals
+concludes that they are equal, that one is the negation of the other, that one's terms are a subset of the other's, or
+that they cannot both be true, the conclusion holds for every valuation of the underlying signals; a condition rebuilt
+from its analysed form is equivalent to the original.*
+
+Model: `C14/Model.lean` — `parse` = `Conjunction::parseOutput` (CNF.cpp) as written (visit order, `alreadyVisited` with first
+polarity, `canDescendIntoAnd`, term map with contradiction detection), verdict functions as written. Graphs are arrays of
+nodes whose inputs reference smaller indices (any finite acyclic network can be numbered this way; the harness dumps
+creation order). Opaque terms (pins, undefined constants, other logic) are free variables of the valuation `ρ`.
+All theorems: for every well-formed graph of any size, every root, every valuation.
 -/
 namespace Gatery.C14.Props
 open Gatery.C14
 
-/-- the counterexample of finding F1:  0:a 1:b 2:and(0,1) 3:sig(2) 4:not(3) -/
+/-- The analysed form is equivalent to the original condition (unless the analysis says `undefined`). -/
+theorem analysis_sound (g : Graph) (hwf : g.WF) (root : Nat) (hr : root < g.size) (ρ : Nat → Bool)
+    (hu : (parse false g (some root)).undef = false) :
+    (parse false g (some root)).semE g ρ = eval g ρ root :=
+  parse_sound g hwf root hr ρ hu
+
+/-- `isEqualTo`: conditions reported equal have the same value under every valuation. -/
+theorem isEqualTo_holds (g : Graph) (hwf : g.WF) (r1 r2 : Nat) (h1 : r1 < g.size) (h2 : r2 < g.size)
+    (h : isEqualTo (parse false g (some r1)) (parse false g (some r2)) = true) (ρ : Nat → Bool) :
+    eval g ρ r1 = eval g ρ r2 := by
+  have hu : (parse false g (some r1)).undef = false ∧ (parse false g (some r2)).undef = false := by
+    unfold isEqualTo at h; split at h
+    · cases h
+    · rename_i hx; simpa using hx
+  rw [← parse_sound g hwf r1 h1 ρ hu.1, ← parse_sound g hwf r2 h2 ρ hu.2]
+  exact isEqualTo_sound g ρ _ _ (parse_uniq _ _ _) (parse_uniq _ _ _) h
+
+/-- `isNegationOf`: conditions reported as negations of each other always differ. -/
+theorem isNegationOf_holds (g : Graph) (hwf : g.WF) (r1 r2 : Nat) (h1 : r1 < g.size) (h2 : r2 < g.size)
+    (h : isNegationOf (parse false g (some r1)) (parse false g (some r2)) = true) (ρ : Nat → Bool) :
+    eval g ρ r1 = !eval g ρ r2 := by
+  have hu : (parse false g (some r1)).undef = false ∧ (parse false g (some r2)).undef = false := by
+    unfold isNegationOf at h; split at h
+    · cases h
+    · rename_i hx; simpa using hx
+  rw [← parse_sound g hwf r1 h1 ρ hu.1, ← parse_sound g hwf r2 h2 ρ hu.2]
+  exact isNegationOf_sound g ρ _ _ h
+
+/-- `a.isSubsetOf(b)`: every term of `a` is a term of `b`, so whenever `b` holds `a` holds. -/
+theorem isSubsetOf_holds (g : Graph) (hwf : g.WF) (r1 r2 : Nat) (h1 : r1 < g.size) (h2 : r2 < g.size)
+    (h : isSubsetOf (parse false g (some r1)) (parse false g (some r2)) = true) (ρ : Nat → Bool) :
+    eval g ρ r2 = true → eval g ρ r1 = true := by
+  have hu : (parse false g (some r1)).undef = false ∧ (parse false g (some r2)).undef = false := by
+    unfold isSubsetOf at h; split at h
+    · cases h
+    · rename_i hx; simpa using hx
+  rw [← parse_sound g hwf r1 h1 ρ hu.1, ← parse_sound g hwf r2 h2 ρ hu.2]
+  exact isSubsetOf_sound g ρ _ _ h
+
+/-- `cannotBothBeTrue`: no valuation makes both conditions true. -/
+theorem cannotBothBeTrue_holds (g : Graph) (hwf : g.WF) (r1 r2 : Nat) (h1 : r1 < g.size) (h2 : r2 < g.size)
+    (h : cannotBothBeTrue (parse false g (some r1)) (parse false g (some r2)) = true) (ρ : Nat → Bool) :
+    ¬ (eval g ρ r1 = true ∧ eval g ρ r2 = true) := by
+  have hu : (parse false g (some r1)).undef = false ∧ (parse false g (some r2)).undef = false := by
+    unfold cannotBothBeTrue at h; split at h
+    · cases h
+    · rename_i hx; simpa using hx
+  rw [← parse_sound g hwf r1 h1 ρ hu.1, ← parse_sound g hwf r2 h2 ρ hu.2]
+  exact cannotBothBeTrue_sound g ρ _ _ h
+
+/-! ### the defect found at the pinned commit (F1), machine checked -/
+
+/-- 0:a 1:b 2:and(0,1) 3:sig(2) 4:not(3) -/
 def gF1 : Graph := #[.leaf, .leaf, .and (some 0) (some 1), .sig (some 2), .not (some 3)]
 def rho10 : Nat → Bool := fun i => i == 0     -- a=1, b=0
 
-/-- Machine-checked negation of soundness for the code as it was at the pinned commit (`bug := true`):
-    `¬(named)` with `named = a ∧ b` is analysed as `¬a ∧ ¬b`, which differs from the original at a=1,b=0. -/
+/-- Negation of soundness for the code as it was (`bug := true`: the `Node_Signal` case forgot `canDescendIntoAnd`):
+    `¬(named)` with `named = a ∧ b` was analysed as `¬a ∧ ¬b`. -/
 theorem F1_witness : (parse true gF1 (some 4)).undef = false ∧
     eval gF1 rho10 4 ≠ (parse true gF1 (some 4)).semE gF1 rho10 := by decide
 
-/-- the corrected code is right on the same witness -/
-theorem fixed_ok_on_witness : eval gF1 rho10 4 = (parse false gF1 (some 4)).semE gF1 rho10 := by decide
+/-! ### non-vacuity -/
+
+/-- a well-formed network on which the verdicts fire: r1 = a ∧ ¬b (through a signal), r2 = ¬b, r3 = b -/
+def gEx : Graph := #[.leaf, .leaf, .not (some 1), .sig (some 2), .and (some 0) (some 3), .sig (some 1)]
+
+example : gEx.WF := by
+  intro i hi
+  have : i < 6 := hi
+  match i, this with
+  | 0, _ => trivial | 1, _ => trivial
+  | 2, _ => show (1 : Nat) < 2; omega
+  | 3, _ => show (2 : Nat) < 3; omega
+  | 4, _ => exact ⟨show (0 : Nat) < 4 by omega, show (3 : Nat) < 4 by omega⟩
+  | 5, _ => show (1 : Nat) < 5; omega
+
+example : isSubsetOf (parse false gEx (some 2)) (parse false gEx (some 4)) = true ∧
+    cannotBothBeTrue (parse false gEx (some 4)) (parse false gEx (some 5)) = true ∧
+    isNegationOf (parse false gEx (some 3)) (parse false gEx (some 5)) = true ∧
+    isEqualTo (parse false gEx (some 2)) (parse false gEx (some 3)) = true ∧
+    (parse false gEx (some 4)).undef = false := by decide
 
 end Gatery.C14.Props
